@@ -169,7 +169,19 @@ func Controlled() bool { return Active && !aborting }
 
 // Run executes body as thread 0 under the given choice prefix (default choice 0
 // afterwards) and returns the record of the execution.
+// OnReset registers f to run before the next execution starts. The shims of process-global
+// containers (sync.Pool, sync.Map) use it so that a package-level pool or cache in the code under
+// test starts every execution empty: executions stay a function of their schedule alone.
+func OnReset(f func()) { resetFns = append(resetFns, f) }
+
+var resetFns []func()
+
 func Run(prefix []int, body func()) *Exec {
+	fs := resetFns
+	resetFns = nil
+	for _, f := range fs {
+		f()
+	}
 	ex = &Exec{Prefix: prefix}
 	threads = nil
 	aborting = false
@@ -369,7 +381,9 @@ func pick(self *thread) *thread {
 	}
 	ex.Steps++
 	if ex.Steps > MaxSteps {
-		setOutcome("engine-error", fmt.Sprintf("horizon: more than %d scheduling steps (livelock?)", MaxSteps), "")
+		// every scenario of the harness ends within a few thousand steps (tens of thousands for the chunked
+		// sequential ones): an execution that is still scheduling after MaxSteps is looping for ever
+		setOutcome("livelock", fmt.Sprintf("no end after %d scheduling steps: some thread keeps running without the execution ever finishing", MaxSteps), "")
 		return nil
 	}
 	c := 0
